@@ -268,7 +268,7 @@ func (*VersionInformation) GetGREASEVersion() uint32 {
 		return VERSION_GREASE
 	}
 
-	return uint32(randVal.Uint64()&math.MaxUint32) | 0x0a0a0a0a // all GREASE versions are in 0x?a?a?a?a
+	return uint32(randVal.Uint64()&0xf0f0f0f0) | 0x0a0a0a0a // all GREASE versions are in 0x?a?a?a?a
 }
 
 type PaddingTransportParameter []byte
